@@ -22,6 +22,12 @@ def routeMatches (path : Str) (r : Route) : Bool :=
   | .exact => path == r.pattern
   | .pfx => r.pattern.isPrefixOf path
 
+/-- `LocationConfig.__post_init__`: a prefix without a leading `/` gets one -/
+def locPrefix (p : Str) : Str := if p.head? = some '/' then p else '/' :: p
+
+/-- `get_location_router`: one PREFIX route per location, in configuration order -/
+def locationRoutes (prefixes : List Str) : List Route := prefixes.map (fun p => ⟨locPrefix p, .pfx⟩)
+
 /-- the `for route in self.routes` loop, carrying the index of the route under test -/
 def routeFrom (path : Str) : List Route → Nat → Option Nat
   | [], _ => none
